@@ -8,7 +8,8 @@ use crate::handler::{Handler, Traverse};
 use crate::tags::{self, Tags};
 use crate::Program;
 use deno_ast::view::{JSXAttrOrSpread, JSXOpeningElement, NodeTrait};
-use deno_ast::{SourceRange, SourceRanged};
+use deno_ast::swc::parser::token::Token;
+use deno_ast::{SourceRange, SourceRanged, SourceRangedForSpanned};
 
 #[derive(Debug)]
 pub struct JSXPropsNoSpreadMulti;
@@ -49,21 +50,38 @@ impl Handler for JSXPropsNoSpreadMultiHandler {
       if let JSXAttrOrSpread::SpreadElement(spread) = attr {
         let text = spread.expr.text();
         if seen.contains(text) {
+          // The attribute is `{...expr}`: remove it from the end of the token
+          // before the opening brace (so that the separating white space
+          // goes too) up to the closing brace. The braces are not part of
+          // the spread element's own range and need not be adjacent to it.
+          let program = ctx.program();
+          let fixes = match (
+            spread.previous_token_fast(program),
+            spread.next_token_fast(program),
+          ) {
+            (Some(open), Some(close))
+              if open.token == Token::LBrace && close.token == Token::RBrace =>
+            {
+              let start = open
+                .previous_token_fast(program)
+                .map(|t| t.end())
+                .unwrap_or(open.start());
+              vec![LintFix {
+                description: "Remove this spread attribute".into(),
+                changes: vec![LintFixChange {
+                  new_text: "".into(),
+                  range: SourceRange::new(start, close.end()),
+                }],
+              }]
+            }
+            _ => vec![],
+          };
           ctx.add_diagnostic_with_fixes(
             spread.range(),
             CODE,
             MESSAGE,
             Some(HINT.to_string()),
-            vec![LintFix {
-              description: "Remove this spread attribute".into(),
-              changes: vec![LintFixChange {
-                new_text: "".into(),
-                range: SourceRange {
-                  start: attr.range().start - 2,
-                  end: attr.range().end + 1,
-                },
-              }],
-            }],
+            fixes,
           );
         }
 
